@@ -115,7 +115,7 @@ class TokenMatcher:
 
         dialect_name = match.group(1)
         self._set_token_matched(token, "Language", dialect_name)
-        self._change_dialect(dialect_name, token.location)
+        self._change_dialect(dialect_name, dict(token.location))
         return True
 
     def match_TagLine(self, token: Token) -> bool:
